@@ -308,3 +308,9 @@ def run(repo: Repo, rep: Report, tier: str) -> None:
     from .shared import borrow as _borrow
     _borrow(repo, rep, "C17", "C17-R2", "C19-R5", "the result does not depend on the working directory: an import is looked up next to the importing file before any cwd-relative entry",
             select=lambda o: "importing file" in o.construct or "list order" in o.construct or "directory of that file" in o.construct, floor=3)
+
+    # ---------------- R6 ---------------------------------------------------------------
+    from .shared import borrow as _borrow19b
+    _borrow19b(repo, rep, "C12", "C12-R2", "C19-R6", "which connectors share a network does not depend on where the solver put things: a relay reused by one network is booked for it, so a "
+               "second network of the same colour is never chained through it, whatever placement makes the reuse possible", floor=2)
+    _borrow19b(repo, rep, "C17", "C17-R8", "C19-R7", "the result does not depend on the working directory: the front ends tell the parser where the importing file is", floor=1)
